@@ -34,12 +34,19 @@ type Verifier struct {
 	lemmas    []*boundLemma
 	purePats  []string
 	sentinels []*sentinel
+	guards    map[string]*boundGuard // heap key of the guarded field -> guard
 	loadNotes []string
 	loadErrs  []string
 	tmpdir    string
 	timeoutMs int
 	agree     bool
 	mu        sync.Mutex
+}
+
+type boundGuard struct {
+	Struct types.Type
+	Mutex  *types.Var
+	Label  string
 }
 
 type boundAxiom struct {
@@ -145,6 +152,41 @@ func (v *Verifier) addFile(cf *ContractFile, pkg *types.Package) error {
 		v.lemmas = append(v.lemmas, &boundLemma{l, pkg, cf})
 	}
 	v.purePats = append(v.purePats, cf.PureIface...)
+	for _, g := range cf.Guards {
+		if pkg == nil {
+			return fmt.Errorf("%s: guards needs a package", g.Pos)
+		}
+		obj := pkg.Scope().Lookup(g.Struct)
+		if obj == nil {
+			return fmt.Errorf("%s: guards: unknown struct %s", g.Pos, g.Struct)
+		}
+		stt, ok := obj.Type().Underlying().(*types.Struct)
+		if !ok {
+			return fmt.Errorf("%s: guards: %s is not a struct", g.Pos, g.Struct)
+		}
+		find := func(name string) *types.Var {
+			for i := 0; i < stt.NumFields(); i++ {
+				if stt.Field(i).Name() == name {
+					return stt.Field(i)
+				}
+			}
+			return nil
+		}
+		mu := find(g.Mutex)
+		if mu == nil {
+			return fmt.Errorf("%s: guards: no field %s in %s (detached guard)", g.Pos, g.Mutex, g.Struct)
+		}
+		for _, fname := range g.Fields {
+			f := find(fname)
+			if f == nil {
+				return fmt.Errorf("%s: guards: no field %s in %s (detached guard)", g.Pos, fname, g.Struct)
+			}
+			if v.guards == nil {
+				v.guards = map[string]*boundGuard{}
+			}
+			v.guards[fieldKey(obj.Type(), f)] = &boundGuard{Struct: obj.Type(), Mutex: mu, Label: g.Label}
+		}
+	}
 	for _, ct := range cf.Contracts {
 		bc, err := v.bind(ct, pkg)
 		if err != nil {
@@ -507,6 +549,7 @@ func (v *Verifier) generate(bc *BoundContract) *FuncResult {
 				c.addObl(f, &Obligation{Label: cl.Label, Pending: cl.Pending, Kind: "ensures", Site: site, Clause: cl.Text, Pos: cl.Pos, Guard: g, Goal: t, Where: f.posShort(ret.Pos())})
 			}
 			v.frameObligation(c, f, bc, s, g, site, env)
+			v.readonlyObligation(c, f, bc, s, g, site, ret)
 		}
 		c.loopWNew = false
 		fr.run(st, tTrue)
@@ -586,6 +629,41 @@ func (v *Verifier) frameObligation(c *Ctx, fr *Frame, bc *BoundContract, s *Stat
 	c.addObl(fr, &Obligation{Kind: "frame", Site: site, Clause: "ghost state not listed in modifies/sets is unchanged: " + strings.Join(names, ", "), Guard: g, Goal: tAnd(parts...)})
 }
 
+// readonlyObligation: a function declared readonly leaves every object that existed at entry unchanged
+// (it may allocate and initialise new objects).
+func (v *Verifier) readonlyObligation(c *Ctx, fr *Frame, bc *BoundContract, s *State, g *Term, site string, ret *ssa.Return) {
+	var cl *Clause
+	for _, x := range bc.C.Clauses {
+		if x.Kind == "readonly" {
+			cl = x
+		}
+	}
+	if cl == nil {
+		return
+	}
+	clk0 := c.keys["$clk"].init
+	ks := make([]string, 0, len(s.h))
+	for k := range s.h {
+		ks = append(ks, k)
+	}
+	sort.Strings(ks)
+	var parts []*Term
+	var names []string
+	for _, k := range ks {
+		if !(strings.HasPrefix(k, "F:") || strings.HasPrefix(k, "P:") || strings.HasPrefix(k, "A:") || strings.HasPrefix(k, "MD:") || strings.HasPrefix(k, "MV:") || strings.HasPrefix(k, "AF:")) {
+			continue
+		}
+		hi := c.keys[k]
+		if s.h[k].S == hi.init.S {
+			continue
+		}
+		parts = append(parts, mk(SBool, "(forall ((r V)) (=> (< (birth r) %s) (= (select %s r) (select %s r))))", clk0.S, s.h[k].S, hi.init.S))
+		names = append(names, k)
+	}
+	goal := tAnd(parts...)
+	c.addObl(fr, &Obligation{Label: cl.Label, Pending: cl.Pending, Kind: "readonly", Site: site, Clause: "readonly: no object that existed at entry is modified (written: " + strings.Join(names, ", ") + ")", Pos: cl.Pos, Guard: g, Goal: goal, Where: fr.posShort(ret.Pos())})
+}
+
 func (v *Verifier) ssaFunc(f *types.Func) *ssa.Function {
 	return v.prog.FuncValue(f)
 }
@@ -600,7 +678,11 @@ func (v *Verifier) solveAll(obls []*Obligation, workers int) {
 		go func() {
 			defer wg.Done()
 			for o := range ch {
-				o.Res = solve(o.render(), v.tmpdir, v.timeoutMs, v.agree)
+				to := v.timeoutMs
+				if o.TimeoutMs > 0 {
+					to = o.TimeoutMs
+				}
+				o.Res = solve(o.render(), v.tmpdir, to, v.agree)
 			}
 		}()
 	}
